@@ -92,21 +92,40 @@ func (s *Session) Step(tr string, i int, c Call, names []string) Event {
 	return ev
 }
 
-// Build constructs a tree with the given projection using only elementary calls.
-func (s *Session) Build(pre []Entry) error {
+// BuildCalls returns elementary calls (mkdir, writefile, link, symlink, chown, chmod on fresh names)
+// that construct a tree with the given projection from the initial state.
+func BuildCalls(pre []Entry, noIdm bool) []Call {
 	es := append([]Entry{}, pre...)
-	sort.Slice(es, func(a, b int) bool { return len(es[a].P) < len(es[b].P) })
+	sort.Slice(es, func(a, b int) bool {
+		if len(es[a].P) != len(es[b].P) {
+			return len(es[a].P) < len(es[b].P)
+		}
 
-	made := map[string]string{}
+		return strings.Join(es[a].P, "/") < strings.Join(es[b].P, "/")
+	})
+
+	var calls []Call
+
+	made := map[string]Path{}
+	mk := func(op string, p Path) Call {
+		c := Call{Op: op, P: p}
+		normCall(&c)
+
+		return c
+	}
 
 	for _, e := range es {
-		p := "/" + strings.Join(e.P, "/")
+		p := Path{Abs: true, Parts: e.P}
 
 		switch e.K {
 		case "dir":
-			if err := s.FS.Mkdir(p, 0o777); err != nil && !(ErrName(err) == "EEXIST" && p == "/"+WorkDir) {
-				return fmt.Errorf("build mkdir %s: %w", p, err)
+			if len(e.P) == 1 && e.P[0] == WorkDir {
+				continue
 			}
+
+			c := mk("mkdir", p)
+			c.Perm = 0o777
+			calls = append(calls, c)
 		case "file":
 			key := ""
 			if len(e.Same) > 0 {
@@ -114,56 +133,55 @@ func (s *Session) Build(pre []Entry) error {
 			}
 
 			if first, ok := made[key]; ok && key != "" {
-				if err := s.FS.Link(first, p); err != nil {
-					return fmt.Errorf("build link %s: %w", p, err)
-				}
+				c := mk("link", first)
+				c.Q = p
+				calls = append(calls, c)
 
 				continue
 			}
 
-			if err := s.FS.WriteFile(p, bytesOf(e.D), 0o666); err != nil {
-				return fmt.Errorf("build writefile %s: %w", p, err)
-			}
-
+			c := mk("writefile", p)
+			c.Data = e.D
+			c.Perm = 0o666
+			calls = append(calls, c)
 			made[key] = p
 		case "link":
-			if err := s.FS.Symlink(e.T.Render(), p); err != nil {
-				return fmt.Errorf("build symlink %s: %w", p, err)
-			}
-
-			continue
-		default:
-			return fmt.Errorf("build: unknown kind %q", e.K)
+			c := mk("symlink", p)
+			c.Q = e.T
+			calls = append(calls, c)
 		}
 	}
 
-	// modes and owners last (deepest first so that restrictive directory modes do not get in the way)
+	// owners and modes last, deepest first, so that restrictive directory modes do not get in the way
 	for i := len(es) - 1; i >= 0; i-- {
 		e := es[i]
-		p := "/" + strings.Join(e.P, "/")
+		p := Path{Abs: true, Parts: e.P}
 
-		if e.K == "link" {
-			if (e.U != 0 || e.G != 0) && !s.NoIdm {
-				if err := s.FS.Lchown(p, e.U, e.G); err != nil {
-					return fmt.Errorf("build lchown %s: %w", p, err)
-				}
+		if (e.U != 0 || e.G != 0) && !noIdm {
+			op := "chown"
+			if e.K == "link" {
+				op = "lchown"
 			}
 
+			c := mk(op, p)
+			c.Uid, c.Gid = e.U, e.G
+			calls = append(calls, c)
+		}
+
+		if e.K == "link" {
 			continue
 		}
 
-		if (e.U != 0 || e.G != 0) && !s.NoIdm {
-			if err := s.FS.Chown(p, e.U, e.G); err != nil {
-				return fmt.Errorf("build chown %s: %w", p, err)
-			}
+		if e.K == "file" && len(e.Same) > 0 && strings.Join(e.Same[0], "/") != strings.Join(e.P, "/") {
+			continue // one chmod per inode
 		}
 
-		if err := s.FS.Chmod(p, ModeOf(e.M)); err != nil {
-			return fmt.Errorf("build chmod %s: %w", p, err)
-		}
+		c := mk("chmod", p)
+		c.Perm = e.M
+		calls = append(calls, c)
 	}
 
-	return nil
+	return calls
 }
 
 // EdgeResult is the verdict of one replayed edge.
@@ -306,17 +324,23 @@ func (f *Factory) replayEdge(idx int, e *Edge, names []string) (EdgeResult, erro
 		r.How = "built"
 		trace = nil
 
-		if err := s.Build(e.Pre); err != nil {
-			r.Status = "unreach"
-			r.Why = err.Error()
+		for i, c := range BuildCalls(e.Pre, s.NoIdm) {
+			ev := s.Step(tr, i+1, c, names)
+			trace = append(trace, ev)
 
-			return r, nil
+			if ev.Res.Err != "ok" {
+				r.Status = "unreach"
+				r.Why = "construction failed at " + c.Op + " " + c.P.Render() + ": " + ev.Res.Err
+				r.Trace = trace
+
+				return r, nil
+			}
 		}
 
-		snap := s.Project(names)
-		if !EqualPost(snap.Post, f.adapt(e.Pre)) {
+		if len(trace) > 0 && !EqualPost(trace[len(trace)-1].Post, f.adapt(e.Pre)) {
 			r.Status = "unreach"
 			r.Why = "constructed state differs from the source state"
+			r.Trace = trace
 
 			return r, nil
 		}
